@@ -437,6 +437,225 @@ DOC_KEYS = {'Packages': [f.lower() for f in PKG_FIELDS],
             'Sources': [f.lower() for f in SRC_FIELDS] + ['binary']}
 
 
+# ---------------------------------------------------------------------------
+# size flavour: many clauses, wide groups, long lists, long values, repeated clauses
+
+SIZE_CLAUSES = [20, 40, 70, 150, 400]
+SIZE_ALTS = [10, 17, 30]
+SIZE_ARCHS = [10, 15, 20]
+SIZE_FORMULAS = [[3, 2], [4, 3], [5, 4], [6, 5]]            # groups x terms
+SIZE_LENGTHS = [80, 200, 998, 1000, 4096, 10000]            # the formatted value is LONGER than this
+SIZE_ATOM_LENGTHS = [80, 200]                               # a single atom (a value without a comma) longer than this
+SIZE_DUPS = ['adjacent', 'apart', 'group-adjacent', 'group-apart', 'alt-dup', 'n-times', 'field-twice', 'scattered',
+             'full-atom']
+SIZE_CLASSES = (['clauses:%d' % n for n in SIZE_CLAUSES] + ['clauses:random']
+                + ['alts:%d' % n for n in SIZE_ALTS] + ['archs:%d' % n for n in SIZE_ARCHS]
+                + ['formula:%dx%d' % (g, t) for g, t in SIZE_FORMULAS] + ['all-together']
+                + ['len:%d' % n for n in SIZE_LENGTHS] + ['atomlen:%d' % n for n in SIZE_ATOM_LENGTHS]
+                + ['dup:%s' % d for d in SIZE_DUPS] + ['dup-long:%s' % d for d in SIZE_DUPS])
+N_SIZE_REPS = {'quick': 20, 'thorough': 600}               # x len(SIZE_CLASSES) cases, split over the shards
+SIZE_INITS = ['dict', 'text', 'lines', 'iter']
+
+
+def model_text(desc):
+    """What the documented format of a structure looks like - used ONLY to size generated cases (never as an oracle)."""
+    out = []
+    for g in desc:
+        alts = []
+        for a in g:
+            t = a['n']
+            if a.get('q') is not None:
+                t += ':' + a['q']
+            if a.get('v') is not None:
+                t += ' (%s %s)' % (a['v'][0], a['v'][1])
+            if a.get('a') is not None:
+                t += ' [%s]' % ' '.join(('' if e else '!') + n for e, n in a['a'])
+            if a.get('r') is not None:
+                t += ' ' + ' '.join('<%s>' % ' '.join(('' if e else '!') + p for e, p in grp) for grp in a['r'])
+            alts.append(t)
+        out.append(' | '.join(alts))
+    return ', '.join(out)
+
+
+def gen_plain_atom(r):
+    """What most clauses of a real field look like: a name, often a version constraint, now and then something else."""
+    x = r.random()
+    if x < 0.30:
+        return gen_atom(r)
+    op = r.choice(OPS) if r.random() < 0.55 else None
+    return gen_atom(r, (op, x > 0.93, False, False))
+
+
+def gen_clause(r):
+    return [gen_plain_atom(r) for _ in range(1 if r.random() < 0.8 else r.randint(2, 3))]
+
+
+def gen_field(r, n):
+    return [gen_clause(r) for _ in range(n)]
+
+
+def gen_wide_archlist(r, n):
+    kind = r.choice(['plain', 'negated', 'mixed'])
+    if kind == 'mixed':
+        flags = [r.random() < 0.5 for _ in range(n)]
+        flags[0], flags[-1] = True, False
+    else:
+        flags = [kind == 'plain'] * n
+    return [[f, gen_archname(r)] for f in flags]
+
+
+def gen_wide_formula(r, groups, terms):
+    return [[[r.random() < 0.5, gen_profile(r)] for _ in range(terms)] for _ in range(groups)]
+
+
+def embed(r, atom_or_group, lo=0, hi=3):
+    """A short field with the given atom (or alternatives group) at a random clause position."""
+    grp = atom_or_group if isinstance(atom_or_group, list) else [atom_or_group]
+    before, after = r.randint(lo, hi), r.randint(lo, hi)
+    return gen_field(r, before) + [grp] + gen_field(r, after)
+
+
+def pad_to(r, rels, target):
+    """Append clauses, the last one a bare name of the right length, so that model_text(rels) has exactly `target` characters."""
+    rels = list(rels)
+    while True:
+        room = target - len(model_text(rels)) - (2 if rels else 0)
+        if room < 2:                   # overshot: drop clauses from the end
+            rels.pop()
+            continue
+        if room <= 60:
+            name = r.choice(NAME_FIRST) + ''.join(r.choice(NAME_REST) for _ in range(room - 2)) + r.choice(LOWER)
+            rels.append([{'n': name, 'q': None, 'v': None, 'a': None, 'r': None, 'k': gen_keyorder(r)}])
+            return rels
+        c = gen_clause(r)
+        if len(model_text([c])) + 2 + 2 + 2 <= room:
+            rels.append(c)
+        else:
+            rels.append([gen_atom(r, (None, False, False, False))])
+
+
+def recopy(r, clause):
+    """An == copy of a clause description; the dict of the copy may reach str with another key order."""
+    c = copy.deepcopy(clause)
+    for a in c:
+        if r.random() < 0.5:
+            a['k'] = gen_keyorder(r)
+    return c
+
+
+def gen_dups(r, how, long_):
+    base = gen_field(r, r.randint(40, 70) if long_ else r.randint(0, 3))
+    x = gen_clause(r) if r.random() < 0.5 else [gen_atom(r, (r.choice(OPS), False, False, False))]
+    y = gen_clause(r)
+    grp = [gen_plain_atom(r) for _ in range(r.randint(2, 3))]
+    at = lambda: r.randint(0, len(base))
+
+    def put(field, pos, clause):
+        return field[:pos] + [clause] + field[pos:]
+
+    if how == 'adjacent':
+        i = at()
+        return base[:i] + [x, recopy(r, x), y] + base[i:]
+    if how == 'apart':
+        i = at()
+        return base[:i] + [x, y, recopy(r, x)] + base[i:]
+    if how == 'group-adjacent':
+        i = at()
+        return base[:i] + [grp, recopy(r, grp)] + base[i:]
+    if how == 'group-apart':
+        out = put(base, at(), grp)
+        j = r.randint(0, len(out))
+        out = put(out, j, recopy(r, grp))
+        if long_ or len(out) == 2:      # keep them apart: something in between
+            k = [i for i, c in enumerate(out) if strip_order([c]) == strip_order([grp])]
+            if k[1] == k[0] + 1:
+                out = put(out, k[1], y)
+        return out
+    if how == 'alt-dup':
+        a, b = gen_plain_atom(r), gen_plain_atom(r)
+        g = r.choice([[a, b, recopy(r, [a])[0]], [a, recopy(r, [a])[0]], [a, recopy(r, [a])[0], b],
+                      [b, a, b, recopy(r, [a])[0]]])
+        return put(base, at(), g)
+    if how == 'n-times':
+        i = at()
+        return base[:i] + [x] + [recopy(r, x) for _ in range(r.randint(1, 5))] + base[i:]
+    if how == 'field-twice':
+        f = base if base else [x, y]
+        return f + [recopy(r, c) for c in f]
+    if how == 'scattered':
+        out = base if long_ else base + [x, y, grp]
+        for _ in range(r.randint(5, 10) if long_ else r.randint(2, 4)):
+            out = put(out, r.randint(0, len(out)), recopy(r, r.choice(out)))
+        return out
+    if how == 'full-atom':
+        full = [gen_atom(r, (r.choice(OPS), r.random() < 0.5, True, True))]
+        if r.random() < 0.3:
+            full.append(gen_plain_atom(r))
+        i = at()
+        return put(put(base, i, full), r.randint(0, len(base) + 1), recopy(r, full))
+    raise ValueError(how)
+
+
+def gen_size_rels(r, cls, wide):
+    kind, _, arg = cls.partition(':')
+    if kind == 'clauses':
+        n = r.randint(20, 600 if wide else 400) if arg == 'random' else int(arg)
+        return gen_field(r, n)
+    if kind == 'alts':
+        n = int(arg)
+        return embed(r, [gen_plain_atom(r) for _ in range(n)])
+    if kind == 'archs':
+        a = gen_atom(r, (r.choice([None] + OPS), r.random() < 0.3, True, r.random() < 0.4))
+        a['a'] = gen_wide_archlist(r, int(arg))
+        return embed(r, a) if r.random() < 0.7 else [[a]]
+    if kind == 'formula':
+        g, t = (int(x) for x in arg.split('x'))
+        a = gen_atom(r, (r.choice([None] + OPS), r.random() < 0.3, r.random() < 0.4, True))
+        a['r'] = gen_wide_formula(r, g, t)
+        return embed(r, a) if r.random() < 0.7 else [[a]]
+    if kind == 'all-together':
+        out = gen_field(r, r.randint(40, 70))
+        for _ in range(r.randint(1, 3)):
+            out.insert(r.randint(0, len(out)), [gen_plain_atom(r) for _ in range(r.randint(10, 30))])
+        for _ in range(r.randint(2, 5)):
+            a = gen_atom(r, (r.choice([None] + OPS), r.random() < 0.3, True, True))
+            a['a'] = gen_wide_archlist(r, r.randint(10, 20))
+            a['r'] = gen_wide_formula(r, r.randint(3, 6), r.randint(2, 5))
+            g = r.choice(out)
+            g[r.randrange(len(g))] = a
+        return out
+    if kind == 'len':
+        return pad_to(r, [], int(arg) + r.randint(1, 40))
+    if kind == 'atomlen':
+        # one atom, no comma anywhere in the value: a long name is not what makes real atoms long - lists and formulas are
+        a = gen_atom(r, (r.choice(OPS), True, True, True))
+        a['a'] = gen_wide_archlist(r, r.randint(4, 8))
+        a['r'] = gen_wide_formula(r, 2, 2)
+        while len(model_text([[a]])) <= int(arg) + 2:
+            if r.random() < 0.5 and len(a['a']) < 20:
+                a['a'].append([a['a'][-1][0], gen_archname(r)])
+            elif len(a['r']) < 6:
+                a['r'].append([[r.random() < 0.5, gen_profile(r)] for _ in range(r.randint(2, 5))])
+            elif len(a['a']) < 20:
+                a['a'].append([a['a'][-1][0], gen_archname(r)])
+            else:
+                a['r'][r.randrange(len(a['r']))].append([r.random() < 0.5, gen_profile(r)])
+        return [[a]]
+    if kind in ('dup', 'dup-long'):
+        return gen_dups(r, arg, kind == 'dup-long')
+    raise ValueError(cls)
+
+
+def gen_size_case(r, cls, wide, idx):
+    clsname = 'Packages' if r.random() < 0.5 else 'Sources'
+    names = r.sample(CLS_FIELDS[clsname], 3)
+    return {'kind': 'size', 'sz': cls, 'rels': gen_size_rels(r, cls, wide),
+            'cls': clsname, 'init': SIZE_INITS[idx % len(SIZE_INITS)], 'field': names[0],
+            # short fields before / after the long one in the paragraph
+            'before': [[names[1], gen_rels(r)]] if r.random() < 0.5 else [],
+            'after': [[names[2], gen_rels(r)]] if r.random() < 0.5 else []}
+
+
 def gen_view_plans(r, npar, rot):
     """Three plans, each executed on paragraph objects of its own.  A step is [paragraph index, read path]."""
     every = list(range(npar))
@@ -496,7 +715,15 @@ def cases(ctx):
         pkg = ['pkg0'] * len(paras) if r.random() < 0.5 else ['pkg%d' % j for j in range(len(paras))]
         yield {'kind': 'view', 'cls': cls, 'init': r.choice(['text', 'lines', 'dict', 'iter']), 'paras': paras, 'pkg': pkg,
                'plans': gen_view_plans(r, len(paras), i // 2 + ctx.shard)}
-    # 5. history flavour - last, so that the in-place edits it makes cannot influence the other flavours
+    # 5. size flavour: every named size / repetition class, N_SIZE_REPS times
+    r = ctx.rng('size')
+    idx = 0
+    for _rep in range(N_SIZE_REPS[ctx.tier]):
+        for cls in SIZE_CLASSES:
+            if ctx.mine(idx):
+                yield gen_size_case(r, cls, wide, idx // ctx.nshards + _rep)
+            idx += 1
+    # 6. history flavour - last, so that the in-place edits it makes cannot influence the other flavours
     r = ctx.rng('hist')
     kinds = ['arch', 'term', 'group', 'scalar', 'alt', 'and']
     for _i in range(ctx.size(N_HIST['quick'], N_HIST['thorough'])):
